@@ -55,12 +55,12 @@ CLAIMED = {
         '(decide +kernel, no native_decide) against the exact Bardell polynomials of the closed formula: function tables (calc_f/fxi/fxixi and '
         'the calc_vec_* duplicates), 6 full-interval, 6 sub-interval and 5 mapped-argument integral families for all 900 index pairs, all '
         'monomials, exact zero and flag patterns; Gauss-Legendre nodes/weights n = 2..64 (moments up to 2n-1, decimal and binary64 readings). '
-        'Lifted by once-proved lemmas to values for all arguments/flags (Mathlib interval integrals over R for the full and sub-interval '
-        'families; Gauss exactness on polynomials of degree <= 2n-1); hand model of trapz/Simpson point sets with exactness and area theorems '
+        'Lifted by once-proved lemmas to values for all arguments/flags (Mathlib interval integrals over R for the full, sub-interval and '
+        'mapped-argument families; Gauss exactness on polynomials of degree <= 2n-1); hand model of trapz/Simpson point sets with exactness and area theorems '
         'for all grid sizes. V: freshly compiled C (ctypes) vs exact oracle vs emitted data.',
    note='Trusted: Lean kernel, Mathlib, translator ctables.py (validated by V each run), gcc/ctypes for V; floating-point evaluation error of the '
-        'monomial-basis polynomials is outside the theorems; the binomial identity behind the mapped-argument value theorems is not formalised '
-        '(named ..._partial; compared with the oracle instead).',
+        'monomial-basis polynomials is outside the theorems. The mapped-argument families now have full value theorems too (map_*_integral: binomial '
+        're-expansion = real integral of D u_i(xi) * D u_j(c0 + c1 xi), Bardell/MapLemmas.lean); the ordered-field forms stay as ..._partial.',
    technique='Lean 4 proof (kernel-decided complete tables + lifting lemmas) over model regenerated from C source + translation validation', ref='4/C10'),
  'C11': dict(
    text='Lean models of the C-level field kernels (cfuvw, cfwx, cfwy, cfg, cfstrain; full and w-only) REGENERATED from '
